@@ -59,3 +59,12 @@ def register(reg):
         "identities are algebraic, so one generic lattice point per variable role already separates index/sin-cos/slice mistakes.",
         "Lattice only; tolerance 1e-9 relative to (1+g).",
         "DESIGN.md section 5 C16")
+
+    reg("C17", "ENUM", "exploration",
+        "bounded exhaustive enumeration of recording histories and of small point sets",
+        "Every recording history of <=3 individuals (<=4/5 for tag order) over alphabets with duplicate values, interleaved and "
+        "unsorted tags, min/max/absent criteria is replayed into a real Problem and every query is compared with a list "
+        "comprehension over the recorded individuals; gd and epsilon_add on every reference x computed pair of subsets of a 3x3 grid "
+        "against their definitions, plus the shift law.",
+        "parameters()/costs() index pairing demanded only for contiguously recorded generations.",
+        "DESIGN.md section 5 C17")
